@@ -146,6 +146,12 @@ def run_expected(run: Run) -> None:
         us.append((4, picks4[gi:] + picks4[:gi], "superadditive_cached", gap_name, 4 if quick else 6, 1 + gi, small, f"exact4-{gap_name}"))
         us.append((4, [("GEN", "graph_random", 4, seed + gi), ("GEN", "xos", 4, seed + 3 + gi)], "superadditive", gap_name, 3 if quick else 5, 2, small,
                    f"gen4-{gap_name}"))
+    # l-infinity is flat in most directions (only the widest interval counts): a coalition that helps NO sampled game now may be the best
+    # one two steps later; several different games per configuration, long sequences
+    fam = [n_ for n_ in ("xs", "xs", "xos", "xs", "xs2", "xs", "oxs", "graph_random") if n_ in gens.names()]
+    for k in range(16 if quick else 64):
+        gs = [("GEN", fam[k % len(fam)], 4, gens.seed_window(seed, 1)[0] + 7 * k + j) for j in range(4 if k % 4 else 2)]   # one family per configuration
+        us.append((4, gs, ("superadditive", "superadditive_cached")[k % 2], "linf_norm", 6, len(gs), [(1, "p1", [0])], f"gen4-linf-{fam[k % len(fam)]}#{k}"))
     # tiny units: every mean gap (and every difference between candidates) is far below 1e-6 in absolute terms
     us.append((3, [A.scaled(g, A.TINY) for g in picks3[:3]], "superadditive", "l1_norm", 3, 2, schedules(2, True), "tiny3"))
     us.append((4, [A.scaled(g, A.TINY) for g in picks4[:2]], "superadditive_cached", "exploitability", 3, 2, [(1, "p1", [0]), (2, "round-robin", [0, 1])], "tiny4"))
